@@ -96,7 +96,9 @@ def impl_meta(case):
                         fail = ('from_bytes-differs:' + key, 'from_bytes(bytes()) of %r gives %r' % (m, m2))
             except Exception as e:  # noqa: BLE001
                 hours = mi[0] == 6 and mi[2] >= 32
-                fail = ('smpte_offset.hours>=32' if hours else 'from_bytes-raises:' + key, 'from_bytes(bytes()) of %r raised %r' % (m, e))
+                unk_known = mi[0] == 10 and mi[1] in sc.KNOWN_TYPE_BYTES      # outside the round-trip domain
+                if not unk_known:
+                    fail = ('smpte_offset.hours>=32' if hours else 'from_bytes-raises:' + key, 'from_bytes(bytes()) of %r raised %r' % (m, e))
     return out, fail, 'meta%d' % mi[0]
 
 
